@@ -153,6 +153,8 @@ def base_signature(case, violation):
     kind = None
     if "Interleaved input file incomplete" in msg:
         kind = "interleaved-incomplete"
+    elif "First character in input file must be" in msg:
+        kind = "first-character"
     mixed = False
     try:
         for d in destinations(case):
@@ -167,6 +169,7 @@ def base_signature(case, violation):
         "paired": case["paired"],
         "input_fmt": case["fmt"],
         "input_layout": case["input"]["layout"],
+        "fasta_comments": bool(case["input"].get("comments")) and case["fmt"] == "fasta",
         "error_kind": kind,
     }
 
